@@ -6,6 +6,8 @@ package checks
 // registered only inside withExtProfiles (checkpoint hook), never globally.
 
 import (
+	"bytes"
+	"encoding/json"
 	"errors"
 	"fmt"
 	"sync"
@@ -706,5 +708,46 @@ func (nestingP2Profile) GetClaims() psatoken.IClaims {
 		Profile:          &p,
 		SwComponents:     &psatoken.SwComponents[*psatoken.SwComponent]{},
 		CanonicalProfile: NestingP2Name,
+	}}
+}
+
+// ---- an extension whose MarshalJSON writes through a json.Encoder with
+// indentation and without HTML escaping: valid JSON that is NOT in the form
+// json.Marshal normalises marshaler output to (compact, escaped, no newline) ----
+
+const SloppyP2Name = "http://example.com/verif/sloppy-json-on-p2"
+
+type SloppyJSONClaims struct{ psatoken.P2Claims }
+
+func (o *SloppyJSONClaims) Validate() error { return psatoken.ValidateClaims(o) }
+
+func (o SloppyJSONClaims) MarshalJSON() ([]byte, error) {
+	inner, err := json.Marshal(&o.P2Claims)
+	if err != nil {
+		return nil, err
+	}
+	var v map[string]any
+	if err := json.Unmarshal(inner, &v); err != nil {
+		return nil, err
+	}
+	var buf bytes.Buffer
+	enc := json.NewEncoder(&buf)
+	enc.SetEscapeHTML(false)
+	enc.SetIndent("", "  ")
+	if err := enc.Encode(v); err != nil {
+		return nil, err
+	}
+	return buf.Bytes(), nil
+}
+
+func newSloppyJSONClaims() *SloppyJSONClaims {
+	p := eat.Profile{}
+	if err := p.Set(SloppyP2Name); err != nil {
+		panic(err)
+	}
+	return &SloppyJSONClaims{psatoken.P2Claims{
+		Profile:          &p,
+		SwComponents:     &psatoken.SwComponents[*psatoken.SwComponent]{},
+		CanonicalProfile: SloppyP2Name,
 	}}
 }
